@@ -35,7 +35,7 @@ struct cellmon {
   uint64_t rmw1_clk, rmw1_old, rmw1_new; int rmw1_ord;      /* first RMW */
   uint64_t rmw2_clk, rmw2_old, rmw2_new; int rmw2_ord;      /* last RMW */
 };
-struct cellmon mon[N_CELLS];
+struct cellmon m_ver, m_lri, m_c0, m_c1, m_other;   /* separate objects, accessed by name only (no symbolic pointers/indices: keeps the SAT instance small) */
 struct left_right* mon_self;
 static int cell_of(void* a) {
   if (a == (void*)&mon_self->_version_index) return C_VER;
@@ -44,31 +44,23 @@ static int cell_of(void* a) {
   if (a == (void*)&mon_self->_read_indicator2._counter) return C_CNT1;
   return C_OTHER;
 }
-static struct cellmon* mon_of(void* a) {       /* constant indices only: a symbolic array index makes the SAT instance huge */
-  int c = cell_of(a);
-  return c == C_VER ? &mon[0] : c == C_LRI ? &mon[1] : c == C_CNT0 ? &mon[2] : c == C_CNT1 ? &mon[3] : &mon[4];
-}
-static void mon_load(void* addr, uint64_t v, int o) {
-  struct cellmon* m = mon_of(addr);
-  if (m->n_load == 0) { m->first_load_clk = xv_clock; m->all_loads_sc = 1; }
-  m->n_load++; m->last_load_clk = xv_clock; m->last_load_val = v; m->last_load_ord = o;
-  if (o != mo_seq_cst) m->all_loads_sc = 0;
-}
-static void mon_store(void* addr, uint64_t v, int o) {
-  struct cellmon* m = mon_of(addr);
-  m->n_store++; m->store_clk = xv_clock; m->store_val = v; m->store_ord = o;
-}
-static void mon_rmw(void* addr, uint64_t oldv, uint64_t newv, int o) {
-  struct cellmon* m = mon_of(addr);
-  if (m->n_rmw == 0) { m->rmw1_clk = xv_clock; m->rmw1_old = oldv; m->rmw1_new = newv; m->rmw1_ord = o; }
-  m->n_rmw++; m->rmw2_clk = xv_clock; m->rmw2_old = oldv; m->rmw2_new = newv; m->rmw2_ord = o;
-}
+#define UPD_LOAD(M) do { if (M.n_load == 0) { M.first_load_clk = xv_clock; M.all_loads_sc = 1; } \
+  M.n_load++; M.last_load_clk = xv_clock; M.last_load_val = v; M.last_load_ord = o; if (o != mo_seq_cst) M.all_loads_sc = 0; } while (0)
+#define UPD_STORE(M) do { M.n_store++; M.store_clk = xv_clock; M.store_val = v; M.store_ord = o; } while (0)
+#define UPD_RMW(M) do { if (M.n_rmw == 0) { M.rmw1_clk = xv_clock; M.rmw1_old = oldv; M.rmw1_new = newv; M.rmw1_ord = o; } \
+  M.n_rmw++; M.rmw2_clk = xv_clock; M.rmw2_old = oldv; M.rmw2_new = newv; M.rmw2_ord = o; } while (0)
+#define DISPATCH(U) do { int c = cell_of(addr); if (c == C_VER) U(m_ver); else if (c == C_LRI) U(m_lri); else if (c == C_CNT0) U(m_c0); \
+  else if (c == C_CNT1) U(m_c1); else U(m_other); } while (0)
+static void mon_load(void* addr, uint64_t v, int o) { DISPATCH(UPD_LOAD); }
+static void mon_store(void* addr, uint64_t v, int o) { DISPATCH(UPD_STORE); }
+static void mon_rmw(void* addr, uint64_t oldv, uint64_t newv, int o) { DISPATCH(UPD_RMW); }
 static void mon_reset(struct left_right* s) {
   mon_self = s; xv_clock = 1; xv_threw = 0;
-  struct cellmon z = {0}; mon[0] = z; mon[1] = z; mon[2] = z; mon[3] = z; mon[4] = z;
+  struct cellmon z = {0}; m_ver = z; m_lri = z; m_c0 = z; m_c1 = z; m_other = z;
 }
-static unsigned total_stores(void) { return mon[0].n_store + mon[1].n_store + mon[2].n_store + mon[3].n_store + mon[4].n_store; }
-static unsigned total_rmws(void) { return mon[0].n_rmw + mon[1].n_rmw + mon[2].n_rmw + mon[3].n_rmw + mon[4].n_rmw; }
+#define CM(idx, f) ((idx) == 0 ? m_c0.f : m_c1.f)      /* monitor field of counter idx */
+static unsigned total_stores(void) { return m_ver.n_store + m_lri.n_store + m_c0.n_store + m_c1.n_store + m_other.n_store; }
+static unsigned total_rmws(void) { return m_ver.n_rmw + m_lri.n_rmw + m_c0.n_rmw + m_c1.n_rmw + m_other.n_rmw; }
 
 /* ---- std::mutex / std::lock_guard stub ---- */
 unsigned mtx_locks, mtx_unlocks; uint64_t mtx_lock_clk, mtx_unlock_clk; _Bool mtx_bad;
@@ -89,13 +81,13 @@ enum { R_IDLE = 0, R_GOTV = 1, R_ARRIVED = 2, R_READING = 3 };
 int r_state, r_vi, r_inst; uint64_t r_arrive_clk, r_lri_clk; unsigned r_cycles;
 _Bool env_on; int env_kind;       /* 1: we are a writer (readers move); 2: we are a reader (writers and other readers move) */
 struct left_right* env_self;
-static uint64_t* cnt(struct left_right* s, int i) { return i == 0 ? &s->_read_indicator1._counter : &s->_read_indicator2._counter; }
+#define CNT(s, i) ((i) == 0 ? (s)->_read_indicator1._counter : (s)->_read_indicator2._counter)
 static void r_step(void) {
   struct left_right* s = env_self;
   if (r_state == R_IDLE)         { r_vi = s->_version_index; r_state = R_GOTV; }
-  else if (r_state == R_GOTV)    { (*cnt(s, r_vi))++; r_state = R_ARRIVED; r_arrive_clk = xv_clock; }
+  else if (r_state == R_GOTV)    { if (r_vi == 0) s->_read_indicator1._counter++; else s->_read_indicator2._counter++; r_state = R_ARRIVED; r_arrive_clk = xv_clock; }
   else if (r_state == R_ARRIVED) { r_inst = s->_lr_indicator; r_lri_clk = xv_clock; r_state = R_READING; }
-  else                           { (*cnt(s, r_vi))--; r_state = R_IDLE; r_cycles++; }
+  else                           { if (r_vi == 0) s->_read_indicator1._counter--; else s->_read_indicator2._counter--; r_state = R_IDLE; r_cycles++; }
 }
 static _Bool r_on(int i) { return (r_state == R_ARRIVED || r_state == R_READING) && r_vi == i; }
 static _Bool r_reading(struct left_right* s, struct T* x);
@@ -212,33 +204,31 @@ static _Bool inv_idle(struct left_right* s) {
       && (r_state != R_READING || r_inst == s->_lr_indicator);      /* every reader that is inside its functor reads the instance the indicator selects */
 }
 static struct T* sel(struct left_right* s, int lri) { return lri == READ_LEFT ? &s->_left : &s->_right; }
-static struct cellmon* cm(int idx) { return &mon[idx == 0 ? C_CNT0 : C_CNT1]; }
 
 /* ================= read_indicator ================= */
-void h_indicator(void) {
-  struct left_right s; havoc_lr(&s);
-  struct read_indicator* a = nondet_bool() ? &s._read_indicator1 : &s._read_indicator2;
-  struct read_indicator* b = a == &s._read_indicator1 ? &s._read_indicator2 : &s._read_indicator1;
-  uint64_t c0 = a->_counter, o0 = b->_counter; int which = cell_of(&a->_counter);
+static void t_indicator(struct left_right* s, int i) {
+  struct read_indicator* a = i == 0 ? &s->_read_indicator1 : &s->_read_indicator2;
+  struct read_indicator* b = i == 0 ? &s->_read_indicator2 : &s->_read_indicator1;
+  uint64_t c0 = a->_counter, o0 = b->_counter;
   unsigned op = nondet_uint();
   if (op == 0) {
     ri_arrive(a);
     XV_OBL("lr.indicator.counts", a->_counter == c0 + 1 && b->_counter == o0);
-    XV_OBL("lr.indicator.counts", mon[which].n_rmw == 1 && total_rmws() == 1 && total_stores() == 0 && mon[which].rmw1_new == mon[which].rmw1_old + 1);
-    XV_OBL("lr.sync.seq_cst", mon[which].rmw1_ord == mo_seq_cst);                       /* (4) */
+    XV_OBL("lr.indicator.counts", CM(i, n_rmw) == 1 && total_rmws() == 1 && total_stores() == 0 && CM(i, rmw1_new) == CM(i, rmw1_old) + 1);
+    XV_OBL("lr.sync.seq_cst", CM(i, rmw1_ord) == mo_seq_cst);                       /* (4) */
     XV_CANARY("indicator.arrive");
   } else if (op == 1) {
     XV_ASSUME(c0 >= 1);
     ri_depart(a);
     XV_OBL("lr.indicator.counts", a->_counter == c0 - 1 && b->_counter == o0);
-    XV_OBL("lr.indicator.counts", mon[which].n_rmw == 1 && total_rmws() == 1 && total_stores() == 0 && mon[which].rmw1_new == mon[which].rmw1_old - 1);
-    XV_OBL("lr.sync.seq_cst", XV_IS_RELEASE(mon[which].rmw1_ord));                      /* (5) */
+    XV_OBL("lr.indicator.counts", CM(i, n_rmw) == 1 && total_rmws() == 1 && total_stores() == 0 && CM(i, rmw1_new) == CM(i, rmw1_old) - 1);
+    XV_OBL("lr.sync.seq_cst", XV_IS_RELEASE(CM(i, rmw1_ord)));                      /* (5) */
     XV_CANARY("indicator.depart");
   } else if (op == 2) {
     _Bool e = ri_empty(a);
     XV_OBL("lr.indicator.counts", e == (c0 == 0) && a->_counter == c0 && b->_counter == o0);
-    XV_OBL("lr.indicator.counts", total_rmws() == 0 && total_stores() == 0 && mon[which].n_load == 1);
-    XV_OBL("lr.sync.seq_cst", mon[which].last_load_ord == mo_seq_cst);                  /* (6) */
+    XV_OBL("lr.indicator.counts", total_rmws() == 0 && total_stores() == 0 && CM(i, n_load) == 1);
+    XV_OBL("lr.sync.seq_cst", CM(i, last_load_ord) == mo_seq_cst);                  /* (6) */
     if (e) XV_CANARY("indicator.empty"); else XV_CANARY("indicator.nonempty");
   } else if (op == 3) {
     /* arrive; depart is the identity and empty() is true exactly between balanced pairs */
@@ -246,26 +236,29 @@ void h_indicator(void) {
     XV_OBL("lr.indicator.counts", !e1 && a->_counter == c0 && e2 == (c0 == 0) && b->_counter == o0);
     XV_CANARY("indicator.pair");
   } else {
-    int idx = nondet_int(); XV_ASSUME(idx == 0 || idx == 1);
-    struct read_indicator* p = lr_get_read_indicator(&s, idx);
-    XV_OBL("lr.indicator.counts", p == (idx == 0 ? &s._read_indicator1 : &s._read_indicator2));
+    struct read_indicator* p = lr_get_read_indicator(s, i);
+    XV_OBL("lr.indicator.counts", p == a);
     XV_CANARY("indicator.get");
   }
+}
+void h_indicator(void) {
+  struct left_right s; havoc_lr(&s);
+  if (nondet_bool()) t_indicator(&s, 0); else t_indicator(&s, 1);
 }
 
 /* ================= read_guard (RAII pair) ================= */
 void h_guard(void) {
   struct left_right s; havoc_lr(&s);
-  int v = s._version_index; uint64_t c0 = *cnt(&s, v), o0 = *cnt(&s, 1 - v);
+  int v = s._version_index; uint64_t c0 = CNT(&s, v), o0 = CNT(&s, 1 - v);
   struct read_guard g; g._indicator = 0;
   rg_ctor(&g, &s);
   XV_OBL("lr.read.bracket", g._indicator == (v == 0 ? &s._read_indicator1 : &s._read_indicator2));
-  XV_OBL("lr.indicator.counts", *cnt(&s, v) == c0 + 1 && *cnt(&s, 1 - v) == o0);
-  XV_OBL("lr.read.bracket", mon[C_VER].n_load == 1 && cm(v)->n_rmw == 1 && cm(v)->rmw1_clk > mon[C_VER].last_load_clk && cm(1 - v)->n_rmw == 0);
+  XV_OBL("lr.indicator.counts", CNT(&s, v) == c0 + 1 && CNT(&s, 1 - v) == o0);
+  XV_OBL("lr.read.bracket", m_ver.n_load == 1 && CM(v, n_rmw) == 1 && CM(v, rmw1_clk) > m_ver.last_load_clk && CM(1 - v, n_rmw) == 0);
   s._version_index = nondet_bool();            /* the version may change while the guard is alive */
   rg_dtor(&g);
-  XV_OBL("lr.indicator.counts", *cnt(&s, v) == c0 && *cnt(&s, 1 - v) == o0);
-  XV_OBL("lr.read.bracket", cm(v)->n_rmw == 2 && cm(1 - v)->n_rmw == 0 && total_stores() == 0 && mon[C_VER].n_load == 1);
+  XV_OBL("lr.indicator.counts", CNT(&s, v) == c0 && CNT(&s, 1 - v) == o0);
+  XV_OBL("lr.read.bracket", CM(v, n_rmw) == 2 && CM(1 - v, n_rmw) == 0 && total_stores() == 0 && m_ver.n_load == 1);
   if (v == 0) XV_CANARY("guard.v0"); else XV_CANARY("guard.v1");
 }
 
@@ -277,11 +270,11 @@ void h_wait(void) {
   env_on = 1; env_kind = 1;
   lr_wait_for_readers(&s, idx);
   env_on = 0;
-  XV_OBL("lr.wait.spins_until_empty", cm(idx)->n_load >= 1 && cm(idx)->last_load_val == 0);
-  XV_OBL("lr.wait.spins_until_empty", cm(1 - idx)->n_load == 0 && mon[C_OTHER].n_load == 0);
+  XV_OBL("lr.wait.spins_until_empty", CM(idx, n_load) >= 1 && CM(idx, last_load_val) == 0);
+  XV_OBL("lr.wait.spins_until_empty", CM(1 - idx, n_load) == 0 && m_other.n_load == 0);
   XV_OBL("lr.wait.spins_until_empty", !r_on(idx));   /* at the last observation the tracked reader was not on this indicator */
   XV_OBL("lr.wait.spins_until_empty", total_stores() == 0 && total_rmws() == 0 && s._version_index == v0 && s._lr_indicator == l0 && s._left.val == L && s._right.val == R);
-  XV_OBL("lr.sync.seq_cst", cm(idx)->all_loads_sc);                                      /* (6) */
+  XV_OBL("lr.sync.seq_cst", CM(idx, all_loads_sc));                                      /* (6) */
   XV_CANARY("wait.returned");
   if (idx == 0) XV_CANARY("wait.idx0"); else XV_CANARY("wait.idx1");
 #ifdef XV_INT
@@ -293,13 +286,13 @@ void h_wait(void) {
 /* ================= toggle_version_and_wait ================= */
 static void check_toggle(struct left_right* s, int v0) {
   int nx = 1 - v0;
-  XV_OBL("lr.toggle.order", mon[C_VER].n_store == 1 && mon[C_VER].store_val == (uint64_t)nx && s->_version_index == nx);     /* flipped exactly once */
+  XV_OBL("lr.toggle.order", m_ver.n_store == 1 && m_ver.store_val == (uint64_t)nx && s->_version_index == nx);     /* flipped exactly once */
   XV_OBL("lr.toggle.order", wait_n == 2 && wait_idx[0] == nx && wait_idx[1] == v0);
-  XV_OBL("lr.toggle.order", cm(nx)->n_load >= 1 && cm(nx)->last_load_val == 0 && cm(nx)->last_load_clk < mon[C_VER].store_clk);
-  XV_OBL("lr.toggle.order", cm(v0)->n_load >= 1 && cm(v0)->last_load_val == 0 && cm(v0)->first_load_clk > mon[C_VER].store_clk);
-  XV_OBL("lr.toggle.order", wait_ret_clk[0] < mon[C_VER].store_clk && mon[C_VER].store_clk < wait_ret_clk[1]);
-  XV_OBL("lr.toggle.order", mon[C_CNT0].n_store + mon[C_CNT1].n_store + mon[C_CNT0].n_rmw + mon[C_CNT1].n_rmw == 0 && mon[C_OTHER].n_store + mon[C_OTHER].n_rmw == 0);
-  XV_OBL("lr.sync.seq_cst", cm(0)->all_loads_sc && cm(1)->all_loads_sc);                 /* (6) */
+  XV_OBL("lr.toggle.order", CM(nx, n_load) >= 1 && CM(nx, last_load_val) == 0 && CM(nx, last_load_clk) < m_ver.store_clk);
+  XV_OBL("lr.toggle.order", CM(v0, n_load) >= 1 && CM(v0, last_load_val) == 0 && CM(v0, first_load_clk) > m_ver.store_clk);
+  XV_OBL("lr.toggle.order", wait_ret_clk[0] < m_ver.store_clk && m_ver.store_clk < wait_ret_clk[1]);
+  XV_OBL("lr.toggle.order", m_c0.n_store + m_c1.n_store + m_c0.n_rmw + m_c1.n_rmw == 0 && m_other.n_store + m_other.n_rmw == 0);
+  XV_OBL("lr.sync.seq_cst", CM(0, all_loads_sc) && CM(1, all_loads_sc));                 /* (6) */
 }
 void h_toggle(void) {
   struct left_right s; havoc_lr(&s);
@@ -308,7 +301,7 @@ void h_toggle(void) {
   lr_toggle_logged(&s);
   env_on = 0;
   check_toggle(&s, v0);
-  XV_OBL("lr.toggle.order", mon[C_LRI].n_store == 0 && s._lr_indicator == l0 && s._left.val == L && s._right.val == R);
+  XV_OBL("lr.toggle.order", m_lri.n_store == 0 && s._lr_indicator == l0 && s._left.val == L && s._right.val == R);
   /* what the two waits are for: a reader still inside its functor loaded _lr_indicator after toggle_version_and_wait was entered */
   XV_OBL("lr.toggle.drains", r_state != R_READING || r_lri_clk >= tog_enter_clk);
   if (v0 == 0) XV_CANARY("toggle.v0"); else XV_CANARY("toggle.v1");
@@ -330,11 +323,11 @@ static void check_update(struct left_right* s, int l0, int v0, uint64_t L0, uint
   XV_OBL("lr.update.exclusion", !uf_excl_bad);
   if (!xv_threw) {
     XV_OBL("lr.update.order", uf_n == 2 && uf_inst[1] == second);
-    XV_OBL("lr.update.order", mon[C_LRI].n_store == 1 && mon[C_LRI].store_val == (uint64_t)new_lri && s->_lr_indicator == new_lri);
-    XV_OBL("lr.update.order", tog_n == 1 && uf_clk[0] < mon[C_LRI].store_clk && mon[C_LRI].store_clk < tog_enter_clk && tog_exit_clk < uf_clk[1]);
-    XV_OBL("lr.update.order", tog_enter_clk < mon[C_VER].store_clk && mon[C_VER].store_clk < tog_exit_clk);
+    XV_OBL("lr.update.order", m_lri.n_store == 1 && m_lri.store_val == (uint64_t)new_lri && s->_lr_indicator == new_lri);
+    XV_OBL("lr.update.order", tog_n == 1 && uf_clk[0] < m_lri.store_clk && m_lri.store_clk < tog_enter_clk && tog_exit_clk < uf_clk[1]);
+    XV_OBL("lr.update.order", tog_enter_clk < m_ver.store_clk && m_ver.store_clk < tog_exit_clk);
     XV_OBL("lr.update.order", s->_left.val == L0 * 3 + k && s->_right.val == R0 * 3 + k);     /* exactly once to each instance */
-    XV_OBL("lr.sync.seq_cst", mon[C_LRI].store_ord == mo_seq_cst);                        /* (2),(3) */
+    XV_OBL("lr.sync.seq_cst", m_lri.store_ord == mo_seq_cst);                        /* (2),(3) */
     check_toggle(s, v0);
     XV_OBL("lr.update.order", s->_lr_indicator == s->_version_index);
     if (first == 1) XV_CANARY("update.right_first"); else XV_CANARY("update.left_first");
@@ -345,7 +338,7 @@ static void check_update(struct left_right* s, int l0, int v0, uint64_t L0, uint
     XV_CANARY("update.throw_first");
   } else {
     /* the functor threw on the second instance: the first one is complete and published */
-    XV_OBL("lr.update.order", uf_n == 2 && uf_inst[1] == second && mon[C_LRI].n_store == 1 && s->_lr_indicator == new_lri && tog_n == 1 && tog_exit_clk < uf_clk[1]);
+    XV_OBL("lr.update.order", uf_n == 2 && uf_inst[1] == second && m_lri.n_store == 1 && s->_lr_indicator == new_lri && tog_n == 1 && tog_exit_clk < uf_clk[1]);
     XV_OBL("lr.update.order", (first == 0 ? s->_left.val == L0 * 3 + k : s->_right.val == R0 * 3 + k));
     check_toggle(s, v0);
     XV_CANARY("update.throw_second");
@@ -365,8 +358,8 @@ void h_update(void) {
     if (uf_reader_elsewhere[1]) XV_CANARY("update_int.reader_on_new_instance_during_second_application");
     if (uf_reader_elsewhere[0]) XV_CANARY("update_int.reader_on_old_instance_during_first_application");
     /* a reader that arrives between the instance switch and the version toggle, on either indicator */
-    if (r_arrive_clk >= mon[C_LRI].store_clk && r_arrive_clk < mon[C_VER].store_clk && r_vi == v0) XV_CANARY("update_int.arrived_between_switch_and_toggle_old_version");
-    if (r_arrive_clk >= mon[C_LRI].store_clk && r_arrive_clk < mon[C_VER].store_clk && r_vi == 1 - v0) XV_CANARY("update_int.arrived_between_switch_and_toggle_stale_version");
+    if (r_arrive_clk >= m_lri.store_clk && r_arrive_clk < m_ver.store_clk && r_vi == v0) XV_CANARY("update_int.arrived_between_switch_and_toggle_old_version");
+    if (r_arrive_clk >= m_lri.store_clk && r_arrive_clk < m_ver.store_clk && r_vi == 1 - v0) XV_CANARY("update_int.arrived_between_switch_and_toggle_stale_version");
   }
 #endif
 }
@@ -402,19 +395,19 @@ void h_read(void) {
   env_on = 1; env_kind = 2;
   uint64_t res = lr_read(&s);
   env_on = 0;
-  int v = (int)mon[C_VER].last_load_val, l = (int)mon[C_LRI].last_load_val;
-  XV_OBL("lr.read.bracket", mon[C_VER].n_load == 1 && (v == 0 || v == 1));
-  XV_OBL("lr.read.bracket", cm(v)->n_rmw == 2 && cm(1 - v)->n_rmw == 0 && mon[C_VER].n_rmw + mon[C_LRI].n_rmw + mon[C_OTHER].n_rmw == 0 && total_stores() == 0);
-  XV_OBL("lr.read.bracket", cm(v)->rmw1_new == cm(v)->rmw1_old + 1 && cm(v)->rmw2_new == cm(v)->rmw2_old - 1);     /* arrive, depart on the same indicator */
-  XV_OBL("lr.read.bracket", mon[C_LRI].n_load == 1 && rf_n == 1 && rf_inst == (l == READ_LEFT ? 0 : 1));
-  XV_OBL("lr.read.bracket", mon[C_VER].last_load_clk < cm(v)->rmw1_clk && cm(v)->rmw1_clk < mon[C_LRI].last_load_clk
-                            && mon[C_LRI].last_load_clk < rf_clk && rf_clk < cm(v)->rmw2_clk);
-  XV_OBL("lr.read.bracket", mon[C_CNT0].n_load + mon[C_CNT1].n_load + mon[C_OTHER].n_load == 0);
+  int v = (int)m_ver.last_load_val, l = (int)m_lri.last_load_val;
+  XV_OBL("lr.read.bracket", m_ver.n_load == 1 && (v == 0 || v == 1));
+  XV_OBL("lr.read.bracket", CM(v, n_rmw) == 2 && CM(1 - v, n_rmw) == 0 && m_ver.n_rmw + m_lri.n_rmw + m_other.n_rmw == 0 && total_stores() == 0);
+  XV_OBL("lr.read.bracket", CM(v, rmw1_new) == CM(v, rmw1_old) + 1 && CM(v, rmw2_new) == CM(v, rmw2_old) - 1);     /* arrive, depart on the same indicator */
+  XV_OBL("lr.read.bracket", m_lri.n_load == 1 && rf_n == 1 && rf_inst == (l == READ_LEFT ? 0 : 1));
+  XV_OBL("lr.read.bracket", m_ver.last_load_clk < CM(v, rmw1_clk) && CM(v, rmw1_clk) < m_lri.last_load_clk
+                            && m_lri.last_load_clk < rf_clk && rf_clk < CM(v, rmw2_clk));
+  XV_OBL("lr.read.bracket", m_c0.n_load + m_c1.n_load + m_other.n_load == 0);
   if (!xv_threw) { XV_OBL("lr.read.bracket", res == rf_result); XV_CANARY("read.returned"); }
   else XV_CANARY("read.functor_threw");
-  XV_OBL("lr.sync.seq_cst", mon[C_LRI].last_load_ord == mo_seq_cst);                       /* (1) */
-  XV_OBL("lr.sync.seq_cst", cm(v)->rmw1_ord == mo_seq_cst);                                /* (4) */
-  XV_OBL("lr.sync.seq_cst", XV_IS_RELEASE(cm(v)->rmw2_ord));                               /* (5) */
+  XV_OBL("lr.sync.seq_cst", m_lri.last_load_ord == mo_seq_cst);                       /* (1) */
+  XV_OBL("lr.sync.seq_cst", CM(v, rmw1_ord) == mo_seq_cst);                                /* (4) */
+  XV_OBL("lr.sync.seq_cst", XV_IS_RELEASE(CM(v, rmw2_ord)));                               /* (5) */
   /* wait-free: the same five steps (version load, arrive, indicator load, functor, depart) whatever the others do */
   XV_OBL("lr.read.wait_free", xv_clock == clk0 + 5);
   if (v == 0) XV_CANARY("read.v0"); else XV_CANARY("read.v1");
